@@ -44,7 +44,7 @@ Proof. intro. constructor; simpl; intros; try contradiction; discriminate. Qed.
 Lemma cstep_inv : forall s e, cinv s -> cinv (st_of (cstep s e)).
 Proof.
   intros s e [Hp Hf Hd]. unfold st_of.
-  destruct e as [from id target path tag | from id tag | target tag | id | p | p | p b]; simpl.
+  destruct e as [from id target path tag | from id tag | target tag | id | target tag | id | p | p | p b]; simpl.
   - (* request *)
     destruct ((target =? 0) || (target =? c_me s)); simpl; [constructor; auto|].
     destruct (match path with [] => if memN target (c_conns s) then Some target else None | h :: _ => Some h end) as [h|];
@@ -86,6 +86,18 @@ Proof.
       * intros x v H. specialize (Hf x v H). lia.
       * auto.
   - (* cancel *)
+    constructor; simpl.
+    + intros x Hx. apply in_delN in Hx. apply Hp. tauto.
+    + auto.
+    + intros x v Hx. apply in_delN in Hx. apply Hd. tauto.
+  - (* own request whose write parks *)
+    destruct (negb (memN target (c_conns s))); simpl; [constructor; auto|].
+    constructor; simpl.
+    + intros x Hx. apply in_app_or in Hx. destruct Hx as [Hx|[<-|[]]]; [specialize (Hp x Hx)|]; lia.
+    + intros x v H. specialize (Hf x v H). lia.
+    + intros x v Hx H. apply in_app_or in Hx. destruct Hx as [Hx|[<-|[]]]; [eapply Hd; eauto|].
+      specialize (Hf _ _ H). lia.
+  - (* ... and then fails *)
     constructor; simpl.
     + intros x Hx. apply in_delN in Hx. apply Hp. tauto.
     + auto.
@@ -172,7 +184,7 @@ Lemma fwd_entry_stable_step : forall s e fid v,
 Proof.
   intros s e fid v [Hp Hf Hd] Hg Hne. unfold st_of.
   assert (Hle : fid <= c_next s) by (eapply Hf; eauto).
-  destruct e as [from id target path tag | from id tag | target tag | id | p | p | p b]; simpl; auto.
+  destruct e as [from id target path tag | from id tag | target tag | id | target tag | id | p | p | p b]; simpl; auto.
   - destruct ((target =? 0) || (target =? c_me s)); simpl; auto.
     destruct (match path with [] => if memN target (c_conns s) then Some target else None | h :: _ => Some h end) as [h|]; simpl; auto.
     destruct (negb (memN h (c_conns s))); simpl; auto.
@@ -185,6 +197,7 @@ Proof.
     destruct (memN id (c_pending s)); simpl; auto.
     destruct (mget id (c_fwd s)) as [[src oid]|]; simpl; auto.
   - destruct (negb (memN target (c_conns s))); simpl; auto. destruct (csend_ok s target); simpl; auto.
+  - destruct (negb (memN target (c_conns s))); simpl; auto.
 Qed.
 
 Theorem fwd_entry_stable : forall evs s fid v,
